@@ -1018,7 +1018,7 @@ func runCase(t pbt.TB, c Case) {
 				symptom = "not-read-back-verbatim"
 			}
 			sig := signature(w, symptom)
-			if strings.HasPrefix(d.key, "ListIndices[") && d.key != "ListIndices[others]" && d.got != "0" {
+			if strings.HasPrefix(d.key, "ListIndices[") && d.key != "ListIndices[others]" && d.got != "0" && d.got != "" {
 				// an index of this case listed for a graph it was not added to
 				for _, ix := range indexed {
 					if "ListIndices["+ix[1]+"|"+ix[2]+"]" == d.key && ix[0] != d.graph {
